@@ -4,6 +4,8 @@ import GqlgenVerif.Model.Naming
 import GqlgenVerif.Model.CyclePass
 import GqlgenVerif.Model.Imports
 import GqlgenVerif.Gen.ResolverImports
+import GqlgenVerif.Model.Regenerate
+import GqlgenVerif.Gen.GenerateSteps
 /-! Line-protocol driver for C18: the order model on the harness's cases.
 
   order <decl>|<decl>…   the package-level identifiers of the model file in the order the generator must write them
@@ -17,6 +19,10 @@ import GqlgenVerif.Gen.ResolverImports
   regen <own> <path=name;…> <path;…>   import aliases: first rendering (lookups in the given order from an empty table),
                          then re-generation over that output ((*File).Imports as regenerated in Gen/ResolverImports
                          re-reserves the file's imports, sorted by path) and the same lookups: `first=a,b second=a,b`
+  gen2 <types,…> <hand,…> <0|1>       two runs of api.Generate (steps in the order regenerated in Gen/GenerateSteps) on the
+                         tree model of Model/Regenerate.lean: schema types that need a Go type, types declared by
+                         hand-written files of the model package (`-` = none), model package autobound; answer
+                         `first=ok|fail models=a,b|- exec=0|1 second=ok|fail models=… exec=…`
 -/
 open GqlgenVerif GqlgenVerif.Naming
 namespace Driver.C18
@@ -67,8 +73,19 @@ def regen (own : String) (names : List (String × String)) (ps : List String) : 
   let second := Imports.lookups nameOf own (Imports.reReserve nameOf own Gen.ResolverImports.reserveAlias [] file) ps
   "first=" ++ ",".intercalate first.2 ++ " second=" ++ ",".intercalate second.2
 
+def showRun (r : Regenerate.Tree × Bool) : String :=
+  (if r.2 then "ok" else "fail") ++ " models=" ++ (match r.1.modelsFile with | some l => ",".intercalate l | none => "-")
+    ++ " exec=" ++ (if r.1.execFile then "1" else "0")
+
+def names (s : String) : List String := if s = "-" || s = "" then [] else s.splitOn ","
+
 def step (line : String) : String :=
   match line.splitOn " " with
+  | ["gen2", ts, hand, ab] =>
+    let p : Regenerate.Project := ⟨names ts, names hand, ab == "1"⟩
+    let r1 := Regenerate.run Gen.GenerateSteps.steps p Regenerate.clean
+    let r2 := Regenerate.run Gen.GenerateSteps.steps p r1.1
+    "first=" ++ showRun r1 ++ " second=" ++ showRun r2
   | ["cyc", ms] =>
     match (ms.splitOn "|").mapM parseCModel with
     | some l => showCyc l (CyclePass.modelPointers l)
